@@ -64,11 +64,12 @@ def decodeOp : Handler := fun args =>
       | "Options" => some (decodeOptions v)
       | "DeviceCount" => some (decodeDeviceCount v)
       | "UlimitsConfig" => some (decodeUlimit v)
+      | "ShellCommand" => (match v with | .str _ => none | v => some (decodeShellCommandList v))
       | _ => none
     match r with
     | none => Json.mkObj [("bad", "type")]
     | some none => Json.mkObj [("err", "decode")]
-    | some (some .null) => Json.mkObj [("panic", "decode")]
+    | some (some .null) => Json.mkObj [("ok", Json.null)]
     | some (some r) => Json.mkObj [("ok", r.toJson)]
 
 def pathCleanOp : Handler := fun args => Json.mkObj [("ok", str (pathClean (getStr args "s").toList))]
@@ -126,7 +127,14 @@ def devSpecOp : Handler := fun args =>
   let (s, d, p) := a.long
   Json.mkObj [("wf", Json.bool a.wf), ("rendered", str a.render), ("long", Json.mkObj [("source", str s), ("target", str d), ("permissions", str p)])]
 
+/-- `tree.Path.Next`: the shared model `TPath.next` and the kernel-reducible `TPath.nextK` side by side -/
+def pathNextOp : Handler := fun args =>
+  let p : TPath := match getStrList args "p" with | [] => TPath.root | l => l
+  let part := getStr args "part"
+  Json.mkObj [("next", Json.arr ((TPath.next p part).map Json.str).toArray), ("nextK", Json.arr ((TPath.nextK p part).map Json.str).toArray)]
+
 def handlers : List (String × Handler) := [
+  ("c03.pathNext", pathNextOp),
   ("c03.parseVolume", parseVolumeOp), ("c03.parsePort", parsePortOp), ("c03.canonical", canonicalOp),
   ("c03.canonical2", canonical2Op), ("c03.decode", decodeOp), ("c03.pathClean", pathCleanOp), ("c03.validIP", validIPOp),
   ("c03.portSpec", portSpecOp), ("c03.volSpec", volSpecOp), ("c03.devSpec", devSpecOp)]
